@@ -376,12 +376,24 @@ theorem assembleAll_some (g : Cfg) (w : World) (i : Nat) (cp : List Char) :
 
 /-! ### histories -/
 
+theorem requestOutcome_ok {g : Cfg} {w w' : World} {c : Nat} {src : HdrSrc} {d : Bool} {o : Outcome}
+    {hs' : Headers} {b : Bool} (h : w.requestOutcome g c src d o = .ok (w', hs', b)) :
+    w.request g c src d = .ok (w', hs') ∧ b = (o != .answered) := by
+  unfold World.requestOutcome at h
+  split at h
+  · simp only [Except.ok.injEq, Prod.mk.injEq] at h
+    obtain ⟨h1, h2, h3⟩ := h
+    subst h1 h2 h3
+    exact ⟨by assumption, rfl⟩
+  · cases h
+
+
 /-- what a caller can do with connections, one after the other -/
 inductive Op where
   | newImpl (cp : List Char) (ids : Bool)
   | wrap (c : Nat) (cls : List Char) (ad : Option Adapter)
   | newDict (hs : Headers)
-  | req (c : Nat) (src : HdrSrc) (hasData : Bool)
+  | req (c : Nat) (src : HdrSrc) (hasData : Bool) (o : Outcome)
   | batch (c : Nat) (threads : List (List ParReq)) (sched : List (Nat × Nat))
 
 /-- generated ids that were sent: (implementation object, what went out under the id header) -/
@@ -393,7 +405,8 @@ def ctrOf (impls : List Impl) (i : Nat) : Option Nat :=
   | none => none
 
 /-- one operation; an operation that raises leaves everything as it was.  A sequential request is
-logged when it moved the counter of its implementation object (it took a number); a batch of
+logged when it moved the counter of its implementation object (it took a number) — whatever its
+outcome: answered, the opener raised, or the answer could not be processed; a batch of
 concurrent requests (what `World.par` does: adapters, then `parCore`) logs the ids of its requests
 that brought none. -/
 def histStep (g : Cfg) (st : World × IdLog) : Op → World × IdLog
@@ -403,9 +416,9 @@ def histStep (g : Cfg) (st : World × IdLog) : Op → World × IdLog
     | .ok (w', _) => (w', st.2)
     | .error _ => st
   | .newDict hs => ((st.1.newDict hs).1, st.2)
-  | .req c src d =>
-    match st.1.conns[c]?, st.1.request g c src d with
-    | some cn, .ok (w', hs') =>
+  | .req c src d o =>
+    match st.1.conns[c]?, st.1.requestOutcome g c src d o with
+    | some cn, .ok (w', hs', _) =>
       (w', if ctrOf w'.impls cn.impl = ctrOf st.1.impls cn.impl then st.2
            else st.2 ++ [(cn.impl, sentId g.name hs')])
     | _, _ => st
